@@ -16,6 +16,9 @@ SU = 'NoteSeqVerif.Props.C12_sustain'
 EXTRA = [
     (EV, ['NSV.C12.pianoroll_perm', 'NSV.C12.drums_perm', 'NSV.C12.chords_perm', 'NSV.C12.melody_perm',
           'NSV.C12.perf_perm', 'NSV.C12.metricPerf_perm', 'NSV.C12.notePerf_perm',
+          # program / is_drum of a performance as a function of the BAG of selected notes (seeded C12-11)
+          'NSV.C12.programAndIsDrum_program_spec', 'NSV.C12.programAndIsDrum_isDrum_spec', 'NSV.C12.canonSet_eq_singleton',
+          'NSV.C12.program_fold_depends_on_order',
           'NSV.C12.map_mergeSort_perm', 'NSV.C12.stepsPerBar_perm', 'NSV.C12.BarAgree.perm',
           'NSV.C12.ChordTiesAgree.perm', 'NSV.C12.MelTiesAgree.perm', 'NSV.C12.PerfTiesAgree.perm'], 'drv_c07'),
     (SU, ['NSV.C12.sustain_perm', 'NSV.C12.sustain_total_exact', 'NSV.C12.sustain_perm_of_covers', 'NSV.C12.sustain_perm_notes',
@@ -209,8 +212,13 @@ def run_event_cases(chk, cases):
             if a != b:
                 chk.disagree('model:' + op, {'op': op, 'params': p, 'sequence': nswire.encode(x)}, a[:600], b[:600])
         if hyp and not same:
-            chk.disagree('theorem:' + op, {'op': op, 'params': p, 'sequence': nswire.encode(ns),
-                                           'permuted': nswire.encode(perm)}, a0[:600], a1[:600])
+            from harness import c12
+            inp = {'event_op': op, 'params': p, 'sequence': nswire.encode(ns), 'permuted': nswire.encode(perm)}
+            if c12.in_quantifier(ns) and len(chk.failures) < 8:
+                # inside the property's quantifier the two results of the REAL code differ: the property itself fails
+                chk.fail('event extraction (%s): result depends on storage order' % op, inp)
+            else:
+                chk.disagree('theorem:' + op, inp, a0[:600], a1[:600])
 
 
 # ----------------------------------------------------------------------------- quantization coincidences (direct oracle)
@@ -362,6 +370,25 @@ def run_tie_stream(chk):
     run_event_cases(chk, cases)
 
 
+def replay_model_stream(chk, obj):
+    """replay of a failure found by the model-tie streams: the real extractor / sustain application on the two storage
+    orders (inputs are inside the property's quantifier)"""
+    from harness import c07, c14, c12
+    from note_seq import sequences_lib as sl
+    ns, perm = nswire.decode(obj['sequence']), nswire.decode(obj['permuted'])
+    if 'event_op' in obj:
+        a, b = c07.run_impl(obj['event_op'], obj['params'], ns), c07.run_impl(obj['event_op'], obj['params'], perm)
+        what = 'event extraction %s %s' % (obj['event_op'], obj['params'])
+    else:
+        a, b = canon_line(c14._call(sl, obj['sustain_ctl'], ns)), canon_line(c14._call(sl, obj['sustain_ctl'], perm))  # pylint: disable=protected-access
+        what = 'apply_sustain_control_changes (controller %d)' % obj['sustain_ctl']
+    print('replay C12 %s; input in quantifier: %s' % (what, c12.in_quantifier(ns)))
+    print('  stored order: %s\n  permuted:     %s' % (str(a)[:400], str(b)[:400]))
+    bad = a != b
+    print('PROPERTY FAILS: result depends on storage order' if bad else 'property holds on this input')
+    return 1 if bad else 0
+
+
 def replay(chk, obj):
     """replay of a `run_tie_stream` failure: {'operation': 'event_extraction', 'sequence', 'permuted', 'extraction'}
     (harness/c12.py's replay only re-runs its own `operations()`, which extract chords from step 0)"""
@@ -436,5 +463,9 @@ def run_streams(chk):
             if a0.split(' ')[2] != exp:
                 chk.disagree('spec:sustain-total', {'ctl': ctl, 'sequence': nswire.encode(ns)}, a0.split(' ')[2], exp)
         if hyp and not same:
-            chk.disagree('theorem:sustain', {'ctl': ctl, 'sequence': nswire.encode(ns), 'permuted': nswire.encode(perm)},
-                         a0[:800], a1[:800])
+            from harness import c12
+            inp = {'sustain_ctl': ctl, 'sequence': nswire.encode(ns), 'permuted': nswire.encode(perm)}
+            if c12.in_quantifier(ns) and len(chk.failures) < 8:
+                chk.fail('apply_sustain_control_changes: result depends on storage order', inp)
+            else:
+                chk.disagree('theorem:sustain', inp, a0[:800], a1[:800])
